@@ -103,14 +103,15 @@ Qed.
 (* ------------------------------------------------------------------ field tags and frames *)
 Inductive fld : Type :=
 | Fdis | Fmand | Flssl | Flauth | Ftyp | Fraw | Fcert | Fjnode | Fst | Fsec | Ftlsp | Ftlsf | Ftlss
-| Fsasl | Fsme | Frp | Foh | Fps | Fh | Fid | Ft | Fsq | Fsmq | Fgs | Fgf | Fcr.
+| Fsasl | Fsme | Frp | Foh | Fps | Fh | Fid | Ft | Fsq | Fsmq | Fgs | Fgf | Fcr
+| FhD | FidD.   (* FhD / FidD: stanza / id handlers may be removed *)
 
 Definition fld_n (f : fld) : nat :=
   match f with
   | Fdis => 0 | Fmand => 1 | Flssl => 2 | Flauth => 3 | Ftyp => 4 | Fraw => 5 | Fcert => 6 | Fjnode => 7
   | Fst => 8 | Fsec => 9 | Ftlsp => 10 | Ftlsf => 11 | Ftlss => 12 | Fsasl => 13 | Fsme => 14 | Frp => 15
   | Foh => 16 | Fps => 17 | Fh => 18 | Fid => 19 | Ft => 20 | Fsq => 21 | Fsmq => 22 | Fgs => 23 | Fgf => 24
-  | Fcr => 25
+  | Fcr => 25 | FhD => 26 | FidD => 27
   end%nat.
 Definition fmem (f : fld) (l : list fld) : bool := existsb (fun g => Nat.eqb (fld_n f) (fld_n g)) l.
 
@@ -142,6 +143,8 @@ Definition eq_on (f : fld) (s s' : state) : Prop :=
   | Fgs => g_strong (gh s') = g_strong (gh s)
   | Fgf => g_feat_seen (gh s') = g_feat_seen (gh s)
   | Fcr => crashed s' = crashed s
+  | FhD => True
+  | FidD => True
   end.
 
 Definition frame (chg : list fld) (s s' : state) : Prop := forall f, fmem f chg = false -> eq_on f s s'.
@@ -165,7 +168,7 @@ Ltac solve_frame :=
 (* side condition of frame_weaken / eff_weaken on concrete lists, decided by computation *)
 Definition all_flds : list fld :=
   [Fdis; Fmand; Flssl; Flauth; Ftyp; Fraw; Fcert; Fjnode; Fst; Fsec; Ftlsp; Ftlsf; Ftlss; Fsasl; Fsme; Frp; Foh; Fps;
-   Fh; Fid; Ft; Fsq; Fsmq; Fgs; Fgf; Fcr].
+   Fh; Fid; Ft; Fsq; Fsmq; Fgs; Fgf; Fcr; FhD; FidD].
 Definition subl (c c' : list fld) : bool := forallb (fun f => fmem f c' || negb (fmem f c)) all_flds.
 Lemma subl_ok c c' : subl c c' = true -> forall f, fmem f c' = false -> fmem f c = false.
 Proof.
@@ -218,7 +221,10 @@ Record eff (c : list fld) (p : preds) (s s' : state) : Prop := mkEff {
   ef_h : h_sub (ph p) s s';
   ef_i : i_sub (pid p) s s';
   ef_t : t_sub (pt p) s s';
-  ef_smq : smq_sub s s'
+  ef_smq : smq_sub s s';
+  ef_hkeep : fmem FhD c = false -> forall k, In k (hk s) -> In k (hk s');
+  ef_ikeep : fmem FidD c = false -> forall k, In k (ik s) -> In k (ik s');
+  ef_cr : crashed s = true -> crashed s' = true
 }.
 
 Lemma fmem_app f a b : fmem f (a ++ b) = fmem f a || fmem f b.
@@ -240,7 +246,7 @@ Proof. unfold live. intros [A|A] L; [split; congruence|contradiction]. Qed.
 
 Lemma eff_refl c p s : eff c p s s.
 Proof.
-  constructor; try (intros k H; auto; fail).
+  constructor; try (intros k H; auto; fail); try (intros _ k H; exact H); try (intros X; exact X).
   - apply frame_refl.
   - intros _. apply frame_refl.
   - left. reflexivity.
@@ -250,7 +256,7 @@ Qed.
 
 Lemma eff_trans c1 c2 p s s1 s2 : eff c1 p s s1 -> eff c2 p s1 s2 -> eff (c1 ++ c2) p s s2.
 Proof.
-  intros [U1 L1 S1 E1 [l1 [Q1 A1]] H1 I1 T1 M1] [U2 L2 S2 E2 [l2 [Q2 A2]] H2 I2 T2 M2]. constructor.
+  intros [U1 L1 S1 E1 [l1 [Q1 A1]] H1 I1 T1 M1 HK1 IK1 C1] [U2 L2 S2 E2 [l2 [Q2 A2]] H2 I2 T2 M2 HK2 IK2 C2]. constructor.
   - eapply frame_weaken; [|eapply frame_trans; [exact U1|exact U2]].
     intros f Hf. rewrite !fmem_app in *.
     destruct (fmem f c1), (fmem f c2), (fmem f DISC); simpl in *; congruence.
@@ -267,12 +273,15 @@ Proof.
   - intros k Hk. destruct (I2 k Hk) as [A|A]; [apply I1; exact A|right; exact A].
   - intros k Hk. destruct (T2 k Hk) as [A|A]; [apply T1; exact A|right; exact A].
   - intros w Hw. apply M1, M2, Hw.
+  - intros Hf k Hk. rewrite fmem_app in Hf. apply orb_false_iff in Hf as [Fa Fb]. apply HK2; [exact Fb|]. apply HK1; assumption.
+  - intros Hf k Hk. rewrite fmem_app in Hf. apply orb_false_iff in Hf as [Fa Fb]. apply IK2; [exact Fb|]. apply IK1; assumption.
+  - intro X. apply C2, C1, X.
 Qed.
 
 Lemma eff_weaken c c' p q s s' :
   (forall f, fmem f c' = false -> fmem f c = false) -> pimp p q -> eff c p s s' -> eff c' q s s'.
 Proof.
-  intros W [WW [WH [WI WT]]] [U L S E [l [Q A]] H I T M]. constructor.
+  intros W [WW [WH [WI WT]]] [U L S E [l [Q A]] H I T M HK IK C]. constructor.
   - eapply frame_weaken; [|exact U]. intros f Hf. rewrite fmem_app in *.
     apply orb_false_iff in Hf as [X Y]. rewrite (W f X), Y. reflexivity.
   - intro Lv. eapply frame_weaken; [exact W|apply L; exact Lv].
@@ -283,6 +292,9 @@ Proof.
   - intros k Hk. destruct (I k Hk); auto.
   - intros k Hk. destruct (T k Hk); auto.
   - exact M.
+  - intro Hf. apply HK. apply W. exact Hf.
+  - intro Hf. apply IK. apply W. exact Hf.
+  - exact C.
 Qed.
 
 (* sequencing with weakening to a common (c, p) *)
@@ -298,9 +310,10 @@ Qed.
 Lemma eff_of_frame c p s s' :
   frame c s s' -> fmem Fsq c = false -> fmem Fh c = false -> fmem Fid c = false -> fmem Ft c = false ->
   fmem Fsmq c = false -> fmem Fst c = false -> (fmem Fsme c = false -> sm_enabled s' = sm_enabled s) ->
+  (crashed s = true -> crashed s' = true) ->
   eff c p s s'.
 Proof.
-  intros F A B C D E G Hs. constructor.
+  intros F A B C D E G Hs Hc. constructor.
   - eapply frame_weaken; [|exact F]. intros f Hf. rewrite fmem_app in Hf. apply orb_false_iff in Hf. tauto.
   - intros _. exact F.
   - left. exact (F Fst G).
@@ -310,26 +323,40 @@ Proof.
   - apply i_sub_same. exact (F Fid C).
   - apply t_sub_same. exact (F Ft D).
   - apply smq_sub_same. exact (F Fsmq E).
+  - intros _ k Hk. pose proof (F Fh B) as X. cbn in X. rewrite X. exact Hk.
+  - intros _ k Hk. pose proof (F Fid C) as X. cbn in X. rewrite X. exact Hk.
+  - exact Hc.
 Qed.
 Ltac eff_frame :=
   apply eff_of_frame; [solve_frame|reflexivity|reflexivity|reflexivity|reflexivity|reflexivity|reflexivity|
-                       first [intros _; reflexivity | let X := fresh in intro X; discriminate X]].
+                       first [intros _; reflexivity | let X := fresh in intro X; discriminate X]|
+                       first [intros _; reflexivity | let X := fresh in intro X; exact X]].
 
 Lemma eff_mk c p s s' :
   frame c s s' -> fmem Fst c = false -> (fmem Fsme c = false -> sm_enabled s' = sm_enabled s) ->
   sq_ext (pw p) s s' -> h_sub (ph p) s s' -> i_sub (pid p) s s' -> t_sub (pt p) s s' -> smq_sub s s' ->
+  (fmem FhD c = false -> forall k, In k (hk s) -> In k (hk s')) ->
+  (fmem FidD c = false -> forall k, In k (ik s) -> In k (ik s')) ->
+  fmem Fcr c = false ->
   eff c p s s'.
 Proof.
-  intros F G Hs A B C D E. constructor; try assumption.
+  intros F G Hs A B C D E HK IK Hc. constructor; try assumption.
   - eapply frame_weaken; [|exact F]. intros f Hf. rewrite fmem_app in Hf. apply orb_false_iff in Hf. tauto.
   - intros _. exact F.
   - left. exact (F Fst G).
   - intro X. left. apply Hs. exact X.
+  - intro X. pose proof (F Fcr Hc) as Y. cbn in Y. congruence.
 Qed.
 Ltac sme_side := first [intros _; reflexivity | let X := fresh in intro X; discriminate X].
 Ltac same_side :=
   first [apply sq_ext_same; reflexivity | apply h_sub_same; reflexivity | apply i_sub_same; reflexivity
         | apply t_sub_same; reflexivity | apply smq_sub_same; reflexivity].
+
+Ltac mk_auto :=
+  apply eff_mk;
+  try (solve_frame); try same_side; try (intros _; reflexivity); try reflexivity;
+  try (let H := fresh in intros _ ? H; exact H);
+  try (let X := fresh in intro X; discriminate X).
 
 Definition pW (P : entry -> Prop) : preds := mkP P (fun _ => False) (fun _ => False) (fun _ => False).
 Definition pH (P : hkind -> Prop) : preds := mkP (fun _ => False) P (fun _ => False) (fun _ => False).
@@ -342,13 +369,11 @@ Definition qa_entry (w : welem) (u m : bool) (s : state) : entry := (w, u, m || 
 Lemma q_append_eff w u m s :
   eff [Fsq] (pW (fun x => x = qa_entry w u m s \/ x = (WReq, false, true))) s (q_append w u m s).
 Proof.
-  unfold q_append. cbv zeta. break_if.
-  - apply eff_mk; [solve_frame|reflexivity|sme_side| |same_side..].
-    exists [qa_entry w u m s; (WReq, false, true)]. split.
+  unfold q_append. cbv zeta. break_if; mk_auto.
+  - exists [qa_entry w u m s; (WReq, false, true)]. split.
     + simpl. rewrite <- app_assoc. reflexivity.
     + constructor; [left; cbn; auto|constructor; [left; cbn; auto|constructor]].
-  - apply eff_mk; [solve_frame|reflexivity|sme_side| |same_side..].
-    exists [qa_entry w u m s]. split; [reflexivity|]. constructor; [left; cbn; auto|constructor].
+  - exists [qa_entry w u m s]. split; [reflexivity|]. constructor; [left; cbn; auto|constructor].
 Qed.
 Lemma send_gated_eff w u m s :
   eff [Fsq] (pW (fun x => x = qa_entry w u m s \/ x = (WReq, false, true))) s (send_gated w u m s).
@@ -370,8 +395,7 @@ Proof.
 Qed.
 Lemma timed_add_eff k now s : eff [Ft] (pT (fun x => x = k)) s (timed_add k now s).
 Proof.
-  unfold timed_add. break_if; [apply eff_refl|].
-  apply eff_mk; [solve_frame|reflexivity|sme_side|same_side|same_side|same_side| |same_side].
+  unfold timed_add. break_if; [apply eff_refl|]. mk_auto.
   intros k' H. unfold tk in H. simpl in H. destruct H as [H|H]; [right; cbn; auto|left; exact H].
 Qed.
 Lemma In_tk_timed_del k k' s : In k' (tk (timed_del k s)) <-> In k' (tk s) /\ k' <> k.
@@ -384,18 +408,17 @@ Proof.
 Qed.
 Lemma timed_del_eff p k s : eff [Ft] p s (timed_del k s).
 Proof.
-  apply eff_mk; [unfold timed_del; solve_frame|reflexivity|sme_side|same_side|same_side|same_side| |same_side].
-  intros k' H. apply In_tk_timed_del in H. left. tauto.
+  unfold timed_del. mk_auto. intros k' H. apply (In_tk_timed_del k k' s) in H. left. tauto.
 Qed.
 Lemma timed_reset_all_eff p now s : eff [] p s (timed_reset_all now s).
 Proof.
-  apply eff_of_frame; try reflexivity.
+  apply eff_of_frame; try reflexivity; try (intros X; exact X).
   intros f H; destruct f; try discriminate H; try reflexivity.
   unfold timed_reset_all, eq_on, tk. simpl. rewrite map_map. reflexivity.
 Qed.
 Lemma timed_set_stamp_eff p k now s : eff [] p s (timed_set_stamp k now s).
 Proof.
-  apply eff_of_frame; try reflexivity.
+  apply eff_of_frame; try reflexivity; try (intros X; exact X).
   intros f H; destruct f; try discriminate H; try reflexivity.
   unfold timed_set_stamp, eq_on, tk. simpl. rewrite map_map. apply map_ext. intro a. break_if; reflexivity.
 Qed.
@@ -408,10 +431,10 @@ Proof.
 Qed.
 Lemma h_add_eff k s : eff [Fh] (pH (fun x => x = k)) s (h_add k s).
 Proof.
-  unfold h_add. break_if; [apply eff_refl|].
-  apply eff_mk; [solve_frame|reflexivity|sme_side|same_side| |same_side|same_side|same_side].
-  intros k' H. unfold hk in H. simpl in H. rewrite map_app in H. apply in_app_iff in H.
-  destruct H as [H|[H|[]]]; [left; exact H|right; cbn; auto].
+  unfold h_add. break_if; [apply eff_refl|]. mk_auto.
+  - intros k' H. unfold hk in H. simpl in H. rewrite map_app in H. apply in_app_iff in H.
+    destruct H as [H|[H|[]]]; [left; exact H|right; cbn; auto].
+  - intros _ k' H. unfold hk. simpl. rewrite map_app. apply in_app_iff. left. exact H.
 Qed.
 Lemma In_hk_h_del k k' s : In k' (hk (h_del k s)) <-> In k' (hk s) /\ k' <> k.
 Proof.
@@ -421,10 +444,9 @@ Proof.
   - intro E. subst. rewrite hkind_eqb_refl in B. discriminate.
   - destruct (hkind_eqb k k') eqn:E; [|reflexivity]. apply hkind_eqb_eq in E. congruence.
 Qed.
-Lemma h_del_eff p k s : eff [Fh] p s (h_del k s).
+Lemma h_del_eff p k s : eff [Fh; FhD] p s (h_del k s).
 Proof.
-  apply eff_mk; [unfold h_del; solve_frame|reflexivity|sme_side|same_side| |same_side|same_side|same_side].
-  intros k' H. apply In_hk_h_del in H. left. tauto.
+  unfold h_del. mk_auto. intros k' H. apply (In_hk_h_del k k' s) in H. left. tauto.
 Qed.
 Lemma In_ik_id_add k k' s : In k' (ik (id_add k s)) <-> In k' (ik s) \/ k' = k.
 Proof.
@@ -434,20 +456,19 @@ Proof.
 Qed.
 Lemma id_add_eff k s : eff [Fid] (pI (fun x => x = k)) s (id_add k s).
 Proof.
-  unfold id_add. break_if; [apply eff_refl|].
-  apply eff_mk; [solve_frame|reflexivity|sme_side|same_side|same_side| |same_side|same_side].
-  intros k' H. unfold ik in H. simpl in H. rewrite map_app in H. apply in_app_iff in H.
-  destruct H as [H|[H|[]]]; [left; exact H|right; cbn; auto].
+  unfold id_add. break_if; [apply eff_refl|]. mk_auto.
+  - intros k' H. unfold ik in H. simpl in H. rewrite map_app in H. apply in_app_iff in H.
+    destruct H as [H|[H|[]]]; [left; exact H|right; cbn; auto].
+  - intros _ k' H. unfold ik. simpl. rewrite map_app. apply in_app_iff. left. exact H.
 Qed.
 Lemma In_ik_id_del k k' s : In k' (ik (id_del k s)) -> In k' (ik s).
 Proof.
   unfold id_del, ik. simpl.
   rewrite (map_filter_proj (@fst idk bool) (fun y => negb (idk_eqb k y))). rewrite filter_In. tauto.
 Qed.
-Lemma id_del_eff p k s : eff [Fid] p s (id_del k s).
+Lemma id_del_eff p k s : eff [Fid; FidD] p s (id_del k s).
 Proof.
-  apply eff_mk; [unfold id_del; solve_frame|reflexivity|sme_side|same_side|same_side| |same_side|same_side].
-  intros k' H. left. eapply In_ik_id_del. exact H.
+  unfold id_del. mk_auto. intros k' H. left. eapply In_ik_id_del. exact H.
 Qed.
 
 Lemma prepare_reset_eff p h s : eff [Foh; Frp] p s (prepare_reset h s).
@@ -464,8 +485,8 @@ Proof.
 Qed.
 Lemma sm_queue_cleanup_eff p h s : eff [Fsmq] p s (sm_queue_cleanup h s).
 Proof.
-  apply eff_mk; [unfold sm_queue_cleanup; solve_frame|reflexivity|sme_side|same_side..|].
-  intros w H. unfold sm_queue_cleanup, sw in *. simpl in H.
+  unfold sm_queue_cleanup. mk_auto.
+  intros w H. unfold sw in *. simpl in H.
   apply in_map_iff in H as [x [E Hin]]. apply drop_below_incl in Hin. subst.
   apply (in_map (fun x => fst (fst (fst x)))). exact Hin.
 Qed.
@@ -480,6 +501,8 @@ Proof.
   all: try (intros L; exfalso; apply L; reflexivity).
   all: try (right; reflexivity).
   all: try (intros _; right; reflexivity).
+  all: try (let H := fresh in intros _ ? H; exact H).
+  all: try (let H := fresh in intros H; exact H).
   all: intros f H; destruct f; try discriminate H; reflexivity.
 Qed.
 Lemma conn_disconnect_st s : crashed (fst (conn_disconnect s)) = false -> crashed s = false ->
@@ -551,7 +574,7 @@ Proof.
 Qed.
 Lemma note_outs_eff p o s : eff [] p s (note_outs o s).
 Proof.
-  apply eff_of_frame; try reflexivity.
+  apply eff_of_frame; try reflexivity; try (intros X; exact X).
   intros f H; destruct f; try discriminate H; try reflexivity; cbn [eq_on]; apply note_outs_gh.
 Qed.
 
@@ -610,7 +633,7 @@ Ltac psolve := repeat split; cbn; try tauto.
 Lemma eff_absorb c P Ph Pi Pt s s' :
   eff c (mkP (fun x => P x \/ In (fst (fst x)) (sw s)) Ph Pi Pt) s s' -> eff c (mkP P Ph Pi Pt) s s'.
 Proof.
-  intros [U L S E [l [Q A]] H I T M]. constructor; try assumption.
+  intros [U L S E [l [Q A]] H I T M HK IK C]. constructor; try assumption.
   exists l. split; [exact Q|]. eapply Forall_impl; [|exact A]. cbn. tauto.
 Qed.
 
@@ -624,8 +647,7 @@ Proof.
     intros y [E|E]; subst; cbn; auto. }
   apply eff_absorb.
   eapply (eff_seq _ _ [Fsmq] pnone); [|apply G|solve_sub|apply pimp_none|apply pimp_refl].
-  apply eff_mk; [solve_frame|reflexivity|sme_side|same_side..|].
-  intros w H. destruct H.
+  mk_auto. intros w H. destruct H.
 Qed.
 
 Definition eLegacy (s : state) : entry -> Prop :=
@@ -770,7 +792,7 @@ Definition pTrue : preds := mkP (fun _ => True) (fun _ => True) (fun _ => True) 
 Lemma pimp_true p : pimp p pTrue.
 Proof. repeat split; cbn; auto. Qed.
 Definition cAll : list fld :=
-  [Fst; Fsec; Ftlsp; Ftlsf; Ftlss; Fsasl; Fsme; Frp; Foh; Fh; Fid; Ft; Fsq; Fsmq; Fgs; Fgf; Fcr].
+  [Fst; Fsec; Ftlsp; Ftlsf; Ftlss; Fsasl; Fsme; Frp; Foh; Fh; Fid; Ft; Fsq; Fsmq; Fgs; Fgf; Fcr; FhD; FidD].
 Definition cAllP : list fld := Fps :: cAll.
 Ltac toA L := eapply eff_weaken; [| |first [apply (L pnone)|apply L]]; [solve_sub|apply pimp_true].
 Ltac frameA := eapply (eff_weaken [] _ pnone); [solve_sub|apply pimp_true|eff_frame].
@@ -1001,3 +1023,60 @@ Proof.
     repeat symT. }
   all: repeat symT.
 Qed.
+
+Lemma call_id_handler_good k now e s : goodR s (call_id_handler k now e s).
+Proof. destruct k; cbv beta iota delta [call_id_handler]; repeat symR. Qed.
+
+Lemma sm_handle_effA e s : eff cAll pTrue s (sm_handle e s).
+Proof. unfold sm_handle. peels. Qed.
+
+Lemma visit_good now e r k s : goodR s r -> goodR s (visit now e r k).
+Proof.
+  intros G. unfold visit. destruct r as [s1 o]. repeat (break_if; [exact G|]).
+  pose proof (call_handler_good k now e s1) as [A B].
+  destruct (call_handler k now e s1) as [[s2 o1] keep]. cbn [fst snd] in *. destruct G as [G1 G2].
+  split; cbn [fst snd].
+  - eapply effA_trans; [exact G1|]. eapply effA_trans; [exact A|]. destruct keep; peels.
+  - apply outs_q_app; [exact G2|]. rewrite <- (effA_dis _ _ (effA_P _ _ G1)). exact B.
+Qed.
+Lemma fold_visit_good now e ks : forall r s, goodR s r -> goodR s (fold_left (visit now e) ks r).
+Proof. induction ks as [|k ks IH]; intros r s G; simpl; [exact G|]. apply IH. apply visit_good. exact G. Qed.
+
+Lemma dispatch_good now e s : goodR s (dispatch now e s).
+Proof.
+  unfold dispatch. cbv zeta.
+  set (s0 := note_rx e s). assert (A0 : eff cAll pTrue s s0) by (unfold s0; peels).
+  clearbody s0. break_if; [split; cbn [fst snd]; [peels|reflexivity]|].
+  assert (G1 : goodR s (match idk_of (e_id e) with
+                        | Some k => if id_has k s0 then let '(s1, o1) := call_id_handler k now e s0 in (id_del k s1, o1) else ret s0
+                        | None => ret s0 end)).
+  { eapply goodR_pre; [exact A0|].
+    destruct (idk_of (e_id e)) as [i|]; [|apply goodR_ret; apply eff_refl].
+    destruct (id_has i s0); [|apply goodR_ret; apply eff_refl].
+    pose proof (call_id_handler_good i now e s0) as [A B].
+    destruct (call_id_handler i now e s0) as [sa oa]. split; cbn [fst snd] in *; [peels|exact B]. }
+  destruct (match idk_of (e_id e) with
+            | Some k => if id_has k s0 then let '(s1, o1) := call_id_handler k now e s0 in (id_del k s1, o1) else ret s0
+            | None => ret s0 end) as [s1 o1].
+  match goal with |- context [fold_left (visit now e) ?ks ?r] =>
+    assert (G2 : goodR s (fold_left (visit now e) ks r)) end.
+  { apply fold_visit_good. destruct G1 as [A B]. split; cbn [fst snd] in *; [|exact B].
+    eapply effA_trans; [exact A|].
+    apply eff_of_frame; try reflexivity; try (intros X; exact X).
+    intros f H; destruct f; try discriminate H; try reflexivity.
+    unfold eq_on, hk. simpl. rewrite map_map. simpl. reflexivity. }
+  match goal with |- context [fold_left (visit now e) ?ks ?r] => destruct (fold_left (visit now e) ks r) as [s3 o3] end.
+  destruct G2 as [A B]. cbn [fst snd] in *.
+  repeat break_if; split; cbn [fst snd]; try exact A; try exact B.
+  eapply effA_trans; [exact A|apply sm_handle_effA].
+Qed.
+
+Lemma open_handler_good now s : goodR s (open_handler now s).
+Proof. cbv beta iota delta [open_handler]. repeat symR. Qed.
+Lemma stream_start_good now nm hid s : goodR s (stream_start now nm hid s).
+Proof.
+  cbv beta iota delta [stream_start]. repeat symR.
+  - eapply goodR_pre; [|apply open_handler_good]. peels.
+Qed.
+Lemma stream_end_good s : goodR s (stream_end s).
+Proof. cbv beta iota delta [stream_end]. repeat symR. Qed.
